@@ -238,7 +238,7 @@ def run(ctx):
     # 2. code -> spec
     d = Driver(ctx)
     rng = ctx.rng
-    nops = ctx.pick(18, 260)
+    nops = ctx.pick(12, 260)
     combos = []
     for adapter, modes in ADAPTER_MODES.items():
         for m in modes:
